@@ -53,6 +53,9 @@ def bind_repo():
     if not f.startswith(REPO + os.sep):
         raise HarnessError(f'py_ballisticcalc imported from {f}, not from {REPO}')
     from py_ballisticcalc.trajectory_calc import TrajectoryCalc
+    from mc import hist as _hist
+    if _hist._PRISTINE is None:
+        _hist.capture_pristine()
     return {'repo': REPO, 'backend': TrajectoryCalc.__module__, 'package_file': f,
             'python': sys.version.split()[0]}
 
@@ -60,6 +63,8 @@ def bind_repo():
 def fresh_world():
     """Every case starts from library defaults so that nothing (incl. /repo/.pybc.toml) leaks between cases."""
     from py_ballisticcalc import PreferredUnits, reset_globals
+    from mc import hist as _hist
+    _hist.restore_pristine()
     PreferredUnits.defaults()
     reset_globals()
 
